@@ -182,7 +182,8 @@ def build_harness():
 def run_harness(modes, seed, n, tier, outdir, extra_env=None, timeout=3600, race=False):
     os.makedirs(outdir, exist_ok=True)
     env = goenv({"NLE_MODE": ",".join(modes), "NLE_SEED": str(seed), "NLE_N": str(n), "NLE_TIER": tier,
-                 "NLE_OUT": outdir, "NLE_DRIVER": DRIVER_BIN, "NLE_REPO": REPO})
+                 "NLE_OUT": outdir, "NLE_DRIVER": DRIVER_BIN, "NLE_REPO": REPO,
+                 "NLE_CORPUS": os.environ.get("NLE_CORPUS", os.path.join(VERIF, "corpus"))})
     if extra_env:
         env.update(extra_env)
     try:
